@@ -16,7 +16,7 @@ EXPLANATION = ("Bounded symbolic execution of the MIR of VisualMetric::metric (+
                "attached to the contested track and takes no part in positional voting; detections without claims are "
                "assigned by a maximum-weight one-to-one positional assignment among the tracks not taken by appearance and "
                "labelled Positional; everything else starts a new track. The voting type travels update -> merge -> record.")
-ASSUMPTIONS = ["metric: one candidate observation x one track observation; box area from {1,4,16}; every option of VisualMetricOptions symbolic; feature distance any non-NaN f32; in Mahalanobis mode the distance is from {0,4,11,11.125,20,200} and the confidences from {1/16,1/4,1/2,1} / {1/32,1/4,3/4} (one f32 division: exact grid instead of free floats)",
+ASSUMPTIONS = ["metric: one candidate observation x one track observation; box area from {1,4,16}; every option of VisualMetricOptions symbolic; feature distance and every threshold any non-NaN f32; IoU from {0,.125,.25,.5,.75,1}, confidences from {1/16,1/4,1/2,1} / {1/32,1/4,3/4}, Mahalanobis distance from {0,4,11,11.125,20,200} (factors of products / quotients come from exact grids so that changed implementations are decided as well)",
                "voting: <= 2 detections x <= 2 tracks, streams of <= 3 results (quick) / 4 (thorough); ids pairwise distinct and > 0",
                "appearance distances: None or a value of {0,.25,.5,1,2,4}; positional weights: None or a value of {0,.125,.25,.5,.75}; positional threshold from {.125,.25,.5}; max feature distance free f32 in [0,16]; min votes <= 3",
                "kuhn_munkres returns a maximum-weight assignment (contract); HashMap/HashSet iteration order nondeterministic; into_group_map / tee / sort_by by their documented contracts",
@@ -71,18 +71,18 @@ def _mk_metric(vkind, pkind):
                  visual_minimal_track_length=vm.fresh(64, 'min_track_length'), visual_minimal_area=_nn(vm, 'min_area'),
                  visual_minimal_quality_use=_nn(vm, 'q_use'), visual_minimal_quality_collect=_nn(vm, 'q_collect'),
                  visual_minimal_own_area_percentage_use=_nn(vm, 'own_use'), visual_minimal_own_area_percentage_collect=_nn(vm, 'own_collect'),
-                 positional_min_confidence=grid_f32(vm, 'min_conf', [0.03125, 0.25, 0.75]) if pkind == 'maha' else _nn(vm, 'min_conf', 0.0078125, 1.0))
+                 positional_min_confidence=grid_f32(vm, 'min_conf', [0.03125, 0.25, 0.75]))
         metric = Cell(mk(P, 'VisualMetric', opts=Ref(Cell(mk(P, 'VisualMetricOptions', **o), 'mopts'))), 'metric')
         # environment answers
         far = vm.fresh('bool', 'too_far')
         has_iou = vm.choose_n(2, "boxes overlap") == 0
-        iou = _nn(vm, 'iou', 0.0, 1.0)
+        iou = grid_f32(vm, 'iou', [0.0, 0.125, 0.25, 0.5, 0.75, 1.0])
         # Mahalanobis mode divides two floats: distance and confidences come from exact grids there (folded per value)
         maha = grid_f32(vm, 'maha', [0.0, 4.0, 11.0, 11.125, 20.0, 200.0]) if pkind == 'maha' else _nn(vm, 'maha', 0.0, 1.0e6)
         fdist = _nn(vm, 'feature_distance')
         vm.notes.update(too_far=far, iou=SOME(iou) if has_iou else NONE, maha=maha, fdist=fdist)
         # candidate observation
-        conf = grid_f32(vm, 'conf', [0.0625, 0.25, 0.5, 1.0]) if pkind == 'maha' else _nn(vm, 'conf', 0.0078125, 1.0)
+        conf = grid_f32(vm, 'conf', [0.0625, 0.25, 0.5, 1.0])
         ai = vm.choose_n(len(AREAS), "box area")
         cbox = Adt('Universal2DBox', 0, (f32(1.0), f32(0.0), NONE, f32(AREAS[ai][0]), f32(AREAS[ai][1]), conf, NONE))
         area = f32(AREAS[ai][0] * AREAS[ai][1] * AREAS[ai][1])
@@ -133,11 +133,11 @@ def _mk_metric(vkind, pkind):
         else:
             if pkind == 'iou':
                 thr = o['positional_kind'].fields[0]
-                prod = z3.fpMul(RNE, iou, fp_plain(c))
-                want = z3.And(z3.Not(far), BOOL(has_iou), z3.fpGEQ(prod, thr))
+                prod = f_mul(iou, c)
+                want = z3.And(z3.Not(far), BOOL(has_iou), f_ge(prod, thr))
                 vm.check(z3.If(want, BOOL(pos.variant == 1), BOOL(pos.variant == 0)), "positional value exactly when reachable and IoU x max(conf, min_conf) >= threshold")
                 if pos.variant == 1:
-                    vm.check(z3.fpEQ(pos.fields[0], prod), "positional weight = IoU x max(conf, min_conf)")
+                    vm.check(f_eq(pos.fields[0], prod), "positional weight = IoU x max(conf, min_conf)")
             else:
                 vm.check(z3.If(far, BOOL(pos.variant == 0), BOOL(pos.variant == 1)), "Mahalanobis: a value exactly when reachable")
                 if pos.variant == 1:
